@@ -45,6 +45,14 @@ var configs = map[string]propCfg{
 		Thorough:   tierCfg{BudgetS: 900, Chunk: 100, MaxRuns: 5000000},
 		Assume:     assumeAll, Real: realAll, Stub: stubAll,
 	},
+	"C05": {
+		Level:      "exploration",
+		Rule:       "Seeded scenarios: 1-3 writers (successful and failing create/update/delete) and 1-7 watchers registering at arbitrary steps with prefixes {whole, sub-prefix, single key, non-matching} and start revisions {0, first+k, committed-k, committed, committed+1, committed+k, last header}; event-cache sizes {1,2,3,5,8,64,default}; consumer policies eager / every-N-steps / never; cancels; slot-ring wrap via the initial revision; yield points after subscription, after cache read, before cache insert, before broadcast, in the hub. 1 run in 40 plus a directed corpus is a long shallow run (>10 100 one-event batches) that overflows a subscriber buffer with a late slow consumer and a stalled drop.",
+		NonTrivial: "a watch registration overlapped a write request in scheduler steps and the watcher received events.",
+		Quick:      tierCfg{BudgetS: 45, Chunk: 120, MaxRuns: 200000},
+		Thorough:   tierCfg{BudgetS: 900, Chunk: 120, MaxRuns: 5000000},
+		Assume:     assumeAll, Real: realAll, Stub: stubAll,
+	},
 }
 
 // expectedProbes lists the reach probes whose absence is reported as a coverage gap.
@@ -52,5 +60,6 @@ var expectedProbes = map[string][]string{
 	"C01": {"overlapping-writes-on-one-key", "create-over-tombstone", "engine-condition-failed", "engine-txn-conflict", "delete-refused-newrev<=modrev", "drift-back"},
 	"C02": {"concurrent-allocations"},
 	"C04": {"later-allocated-write-finished-first", "drift-back"},
+	"C05": {"registration-raced-with-write", "start-inside-history", "cache-wrapped", "watch-refused", "subscriber-dropped", "events-delivered"},
 	"C03": {"read-at-historical-revision", "limit-cut-result", "compaction-before-reread"},
 }
